@@ -234,6 +234,8 @@ func cmdForeign(args []string, w *bufio.Writer) {
 				}
 			case "remove":
 				err = composed.Remove(c.Name)
+			case "removeall":
+				err = composed.RemoveAll(c.Name)
 			case "rename":
 				err = composed.Rename(c.Name, c.Name2)
 			}
